@@ -68,6 +68,30 @@ type gateIPAM struct {
 	armed  bool
 	paused chan struct{}
 	resume chan struct{}
+	// onRelease: the gate is at the first call that gives IPs back (Release / ReleaseIPs / ReserveIP) instead of the first
+	// allocation - i.e. after an unbind has counted the app's IPs and decided
+	onRelease bool
+}
+
+func (g *gateIPAM) Release(key string, ip net.IP) error {
+	if g.onRelease {
+		g.gate()
+	}
+	return g.IPAM.Release(key, ip)
+}
+
+func (g *gateIPAM) ReleaseIPs(m map[string]string) (map[string]string, map[string]string, error) {
+	if g.onRelease {
+		g.gate()
+	}
+	return g.IPAM.ReleaseIPs(m)
+}
+
+func (g *gateIPAM) ReserveIP(oldK, newK string, attr floatingip.Attr) (bool, error) {
+	if g.onRelease {
+		g.gate()
+	}
+	return g.IPAM.ReserveIP(oldK, newK, attr)
 }
 
 func (g *gateIPAM) gate() {
@@ -83,12 +107,16 @@ func (g *gateIPAM) gate() {
 }
 
 func (g *gateIPAM) AllocateInSubnet(key string, subnet *net.IPNet, attr floatingip.Attr) (net.IP, error) {
-	g.gate()
+	if !g.onRelease {
+		g.gate()
+	}
 	return g.IPAM.AllocateInSubnet(key, subnet, attr)
 }
 
 func (g *gateIPAM) AllocateInSubnetWithKey(oldK, newK, subnet string, attr floatingip.Attr) error {
-	g.gate()
+	if !g.onRelease {
+		g.gate()
+	}
 	return g.IPAM.AllocateInSubnetWithKey(oldK, newK, subnet, attr)
 }
 
@@ -810,6 +838,82 @@ func (w *plugWorld) runOp(c map[string]interface{}) map[string]interface{} {
 		if rb.err != nil {
 			o["err_b"] = rb.err.Error()
 		}
+	case "event_loop":
+		// the release event at queue position n is handed to the REAL event loop (one attempt): when the attempt fails the
+		// loop's goroutine backs off and queues the event again - with whatever it queues; that event takes the position back
+		n := int(Num(c, "n"))
+		if n >= len(w.queue) {
+			o["res"] = "skipped"
+			break
+		}
+		ev := w.queue[n]
+		o["event_pod"] = []interface{}{ev.Namespace, ev.Name, string(ev.UID)}
+		w.queue = append(w.queue[:n:n], w.queue[n+1:]...)
+		w.plugin.VerifLoopAttempt(ev, 0)
+		var back []*corev1.Pod
+		for i := 0; i < 80 && len(back) == 0; i++ { // back-off of the first retry: 100 ms
+			time.Sleep(10 * time.Millisecond)
+			back = w.plugin.VerifDrainEvents()
+		}
+		if len(back) > 0 {
+			o["res"] = "err"
+			o["requeued"] = []interface{}{back[0].Namespace, back[0].Name, string(back[0].UID)}
+			rest := append([]*corev1.Pod{}, w.queue[n:]...)
+			w.queue = append(append(w.queue[:n:n], back...), rest...)
+		}
+	case "event_race":
+		// the release events of two pods (queue positions 0 and 1) are handled by two goroutines: the first is stopped after it
+		// has counted the app's IPs and decided, right before it gives its IPs back; the second arrives meanwhile.  Counting,
+		// deciding and releasing / reserving are one critical section under the app's (pool's) mutex, so the second can only
+		// complete after the first.
+		if len(w.queue) < 2 {
+			o["res"] = "skipped"
+			break
+		}
+		evA, evB := w.queue[0], w.queue[1]
+		o["event_pod"] = []interface{}{evA.Namespace, evA.Name, string(evA.UID)}
+		o["event_pod_b"] = []interface{}{evB.Namespace, evB.Name, string(evB.UID)}
+		g := &gateIPAM{armed: true, onRelease: true, paused: make(chan struct{}), resume: make(chan struct{})}
+		w.plugin.VerifWrapIpam(func(i floatingip.IPAM) floatingip.IPAM { g.IPAM = i; return g })
+		defer w.plugin.VerifWrapIpam(func(floatingip.IPAM) floatingip.IPAM { return g.IPAM })
+		doneA, doneB := make(chan error, 1), make(chan error, 1)
+		go func() { doneA <- w.plugin.VerifUnbind(evA) }()
+		var ea, eb error
+		aDone := false
+		select {
+		case <-g.paused:
+		case ea = <-doneA:
+			aDone = true
+		case <-time.After(2 * time.Second):
+		}
+		go func() { doneB <- w.plugin.VerifUnbind(evB) }()
+		during, gotB := false, false
+		select {
+		case eb = <-doneB:
+			during, gotB = !aDone, true
+		case <-time.After(300 * time.Millisecond):
+		}
+		g.mu.Lock()
+		g.armed = false
+		g.mu.Unlock()
+		close(g.resume)
+		if !aDone {
+			ea = <-doneA
+		}
+		if !gotB {
+			eb = <-doneB
+		}
+		o["second_during_first"] = during
+		var rest []*corev1.Pod
+		if ea != nil {
+			o["err_a"] = ea.Error()
+			rest = append(rest, evA)
+		}
+		if eb != nil {
+			o["err_b"] = eb.Error()
+			rest = append(rest, evB)
+		}
+		w.queue = append(rest, w.queue[2:]...)
 	case "sync_pod":
 		if b, _ := c["stale"].(bool); b {
 			// the pod-IP sync reaches this pod with the object it listed earlier
